@@ -117,14 +117,41 @@ fn printed(v: &Value, o: &O) -> String {
 }
 
 // ------------------------------------------------------------------ C13 / C04
+
+/// Printing is a function of (value, options): it may not depend on what the same thread
+/// printed before.  Before every observed print another value is printed under options whose
+/// limits expand every container, and under the compact preset (a printer that kept layout
+/// state between calls would be caught by the next observation).
+fn disturb() {
+    thread_local! {
+        static NOISE: Value = Value::parse_str("[[1,[2]],{\"a\":[3,{\"b\":[]}],\"c\":{}}]").unwrap().0;
+    }
+    NOISE.with(|v| {
+        let mut o = Options::pretty();
+        o.array_limit = Some(json_syntax::print::Limit::Always);
+        o.object_limit = Some(json_syntax::print::Limit::Always);
+        let a = v.print_with(o).to_string();
+        let b = v.compact_print().to_string();
+        let c = v.pretty_print().to_string();
+        std::hint::black_box((a, b, c));
+    });
+}
+
 pub fn eval_c13(line: &str) -> String {
     let Some((Some(o), v)) = decode_case(line) else { return format!("BADCASE {line}") };
-    guarded(move || hex_str(&printed(&v, &o)))
+    guarded(move || {
+        disturb();
+        let first = printed(&v, &o);
+        disturb();
+        let second = printed(&v, &o);
+        if first == second { hex_str(&first) } else { format!("UNSTABLE {} / {}", hex_str(&first), hex_str(&second)) }
+    })
 }
 
 pub fn eval_c04(line: &str) -> String {
     let Some((Some(o), v)) = decode_case(line) else { return format!("BADCASE {line}") };
     guarded(move || {
+        disturb();
         let text = printed(&v, &o);
         let rt = match Value::parse_str(&text) {
             Ok((w, _)) => (w == v) as u8,
@@ -151,7 +178,9 @@ pub fn eval_c04(line: &str) -> String {
 pub fn eval_c08(line: &str) -> String {
     let Some((_, v)) = decode_case(line) else { return format!("BADCASE {line}") };
     guarded(move || {
+        disturb();
         let a = v.compact_print().to_string();
+        disturb();
         let b = v.to_string();
         let c = format!("{}", v);
         let d: String = String::from(v.clone());
